@@ -609,7 +609,7 @@ def replay_concrete(contract, cfg, sizes, values):
             warnings.simplefilter("ignore")
             contract.run(CB, cfg)
     except Exception as e:
-        exc = "%s: %s" % (type(e).__name__, e)
+        exc = None if is_frame_breach(e) else "%s: %s" % (type(e).__name__, e)
     return CB.failures, exc, CB.checked
 
 
@@ -828,6 +828,14 @@ def conform(contract, cfg, seed, n=4):
             continue
         except Exception as e:
             runs += 1
+            if is_frame_breach(e):
+                # the real function read a collaborator attribute its contract does not grant:
+                # reported once by the frame obligation of the symbolic run, not as a failing input
+                continue
             fails.append(dict(found=True, sizes=sizes, values=CB.values, failures=[],
                               exc="%s: %s" % (type(e).__name__, e)))
     return dict(runs=runs, failures=fails)
+
+
+def is_frame_breach(e):
+    return isinstance(e, AttributeError) and "SimpleNamespace" in str(e)
